@@ -222,7 +222,13 @@ func WithUpdateMTime(enabled bool) Option {
 }
 
 func fromURL(u *url.URL) (*fsCache, error) {
-	appname := u.Query().Get("appname")
+	// u.Query() drops a malformed pair (a ";" in it, a bad escape) without a
+	// word: "encrypt=on;encrypt_key=..." would open a plaintext cache.
+	query, err := url.ParseQuery(u.RawQuery)
+	if err != nil {
+		return nil, fmt.Errorf("fscache: invalid DSN query: %w", err)
+	}
+	appname := query.Get("appname")
 	if appname == "" {
 		return nil, ErrMissingAppName
 	}
@@ -230,23 +236,23 @@ func fromURL(u *url.URL) (*fsCache, error) {
 	if u.Path != "" && u.Path != "/" {
 		opts = append(opts, WithBaseDir(u.Path))
 	}
-	if v := u.Query().Get("connect_timeout"); v != "" {
+	if v := query.Get("connect_timeout"); v != "" {
 		opts = append(opts, WithConnectTimeout(parseTimeout(v)))
 	}
-	if v := u.Query().Get("timeout"); v != "" {
+	if v := query.Get("timeout"); v != "" {
 		opts = append(opts, WithTimeout(parseTimeout(v)))
 	}
-	switch encrypt := u.Query().Get("encrypt"); encrypt {
-	case "on", "aesgcm":
-		key := cmp.Or(u.Query().Get("encrypt_key"), os.Getenv("FSCACHE_ENCRYPT_KEY"))
+	switch encrypt := query.Get("encrypt"); {
+	case !query.Has("encrypt"), encrypt == "off":
+	case encrypt == "on", encrypt == "aesgcm":
+		key := cmp.Or(query.Get("encrypt_key"), os.Getenv("FSCACHE_ENCRYPT_KEY"))
 		opts = append(opts, WithEncryption(key))
-	case "", "off":
 	default:
 		// A DSN that asks for encryption in a spelling this package does not
 		// know ("ON", "aes-gcm", "true") must not quietly store plaintext.
 		return nil, fmt.Errorf("fscache: unknown value %q for the encrypt parameter (want \"on\", \"aesgcm\" or \"off\")", encrypt)
 	}
-	if updateMTime := u.Query().Get("update_mtime"); updateMTime == "on" {
+	if updateMTime := query.Get("update_mtime"); updateMTime == "on" {
 		opts = append(opts, WithUpdateMTime(true))
 	}
 	if cap(opts) > len(opts) {
